@@ -53,7 +53,7 @@ def wfEntryB (e : Entry) : Bool :=
   !e.name.contains ':' && (match e.pfx with | some p => !p.contains ':' | none => e.name != sInstanceID)
 
 def wfB (d : LcDoc) : Bool :=
-  (get? d.rootAttrs sVal).isNone && d.insts.all fun i => i.entries.all wfEntryB
+  (get? d.rootAttrs sVal).isNone && d.loose.all wfEntryB && d.insts.all fun i => i.entries.all wfEntryB
 
 def observe (vars : PyDict S S) : Except PyErr (PyDict S S × List (List S)) → Obs
   | .error _ => ⟨true, vars, []⟩
